@@ -67,6 +67,11 @@ class H(W.Hooks):
                             "count_after": run.d.schedule.num_scheduled_operations,
                             "is_complete": run.d.schedule.is_complete()})
 
+    def solver_returned_partial_schedule(self, schedule):
+        self.ctx.violation("c01_solver_returned_an_incomplete_schedule",
+                           {"scheduled": schedule.num_scheduled_operations,
+                            "operations": schedule.instance.num_operations})
+
     def fork_diverged(self, run, detail):
         self.ctx.violation("c01_copied_dispatcher_not_independent", detail)
 
